@@ -640,6 +640,10 @@ func (l *lexer) lexToken(tok int) action {
 	case '&', ';':
 		l.emit(tok)
 		return l.lexPipeline
+	case 0:
+		if l.heredoc.exists() {
+			return l.lexHeredoc
+		}
 	case '\n':
 		switch {
 		case l.heredoc.exists():
